@@ -167,7 +167,7 @@ def getMibRevision(mibDir, mibFile):
 
     for canonicalMibName in processed:
         if (processed[canonicalMibName] == 'compiled' and
-                processed[canonicalMibName].path == 'file://' + os.path.join(mibDir, mibFile)):
+                processed[canonicalMibName].path == 'file://' + os.path.join(os.path.normpath(mibDir), mibFile)):
 
             try:
                 revision = datetime.strptime(processed[canonicalMibName].revision, '%Y-%m-%d %H:%M')
